@@ -165,7 +165,7 @@ fn parent(family: &str, tier: &str, progs: &[Program], merge: Option<String>) ->
             .arg("--run")
             .arg(i.to_string())
             .arg("--pb")
-            .arg(pb.to_string())
+            .arg(if tier == "quick" && progs[i].threads.len() >= 3 && family != "C08" { (pb - 1).to_string() } else { pb.to_string() })
             .arg("--timeouts")
             .arg(k.to_string())
             .stdout(Stdio::piped())
@@ -274,6 +274,7 @@ fn parent(family: &str, tier: &str, progs: &[Program], merge: Option<String>) ->
         "programs_passed": programs_ok,
         "programs_with_single_outcome": vacuous,
         "preemption_bound": pb,
+        "preemption_bound_note": "quick tier: three-thread programs outside C08 run with one preemption less",
         "timeouts_that_fire": ks,
         "frames_checked": frames,
         "max_ticker_ticks_observed": max_ticks,
